@@ -492,7 +492,7 @@ pub fn crash_family(ctx: &Ctx, prop: &str) -> FamilyOutcome {
         ("C10", false) => (1usize, 6usize),
         ("C10", true) => (2, 8),
         (_, false) => (2, 8),
-        (_, true) => (2, 12),
+        (_, true) => (3, 13),
     };
     let mut st = Stats::default();
     let mut complete = true;
@@ -556,7 +556,7 @@ pub fn crash_family(ctx: &Ctx, prop: &str) -> FamilyOutcome {
         ("C10", false) => (2usize, 1usize, 4usize),
         ("C10", true) => (3, 1, 6),
         (_, false) => (3, 1, 6),
-        (_, true) => (4, 1, 8),
+        (_, true) => (5, 2, 9),
     };
     let total = gen_histories(glen).len() as u64;
     let o = crate::iso::run_isolated(ctx, prop, "crash-gen", total, &format!("{glen}|{gdev}|{gsub}|{prop}"));
